@@ -85,6 +85,7 @@ fn run_sequence(acc: &mut Acc, iface: &IfaceDesc, cap: usize, ops: &[&[u8]], gro
     }
     acc.res.evaluations += 1;
     *acc.by_cap.entry(cap).or_default() += 1;
+    acc.res.sample(|| J::obj(vec![("capacity", cap.into()), ("messages", J::strs(msgs.iter().map(|m| esc(m)))), ("via_process", via_process.into()), ("events", out.log.len().into())]));
     // Attribute answers to operations: replay ops against the model, consuming the
     // recorded pushes and the decoded answers in order.
     let pushes: Vec<(i16, String)> = out.log.iter().filter_map(|e| if let Ev::Error { num, text, .. } = e { Some((*num, text.clone())) } else { None }).collect();
@@ -410,7 +411,9 @@ pub fn run(ctx: &Ctx) -> PropResult {
     res.cov("reads_after_an_overflow", ovr);
     res.cov("direct_trait_operations", dops);
     res.cov("sequences_by_capacity", J::Obj(by_cap.into_iter().map(|(k, v)| (k.to_string(), J::Int(v as i64))).collect()));
-    res.samples = vec![J::s("cap 2: ZZ | ARG | CUST | SYST:ERR? | SYST:ERR:COUN? | SYST:ERR? | SYST:ERR?  ->  -113 / 1 / -350 / 0,\"\"")];
+    res.samples.truncate(5);
+    let described: Vec<J> = vec![J::s("cap 2: ZZ | ARG | CUST | SYST:ERR? | SYST:ERR:COUN? | SYST:ERR? | SYST:ERR?  ->  -113 / 1 / -350 / 0,\"\"")];
+    res.samples.extend(described.into_iter().take(1));
     res.assumptions = vec!["error descriptions contain no double quote (quoting is C04's clause)".into()];
     if ov == 0 || ovr == 0 || em == 0 || ct == 0 {
         res.inconclusive = Some("overflow / empty-read coverage floor not reached".into());
